@@ -47,9 +47,18 @@ Definition obs_pair (toks : list string) : string * string :=
 Definition join_hist (l : list (string * string)) : string :=
   String.concat " / " (map join_obs l).
 
+(* "<mode> via <tcp|udp> <packets>": the same history presented over a transport (the harness
+   renders the deliveries after the last one); what it must yield does not depend on the way in *)
+Definition strip_via (r : list string) : list string :=
+  match r with
+  | "via" :: _ :: r' => r'
+  | _ => r
+  end.
+
 Definition c03_run (case obs : list string) : string :=
   match case with
-  | ms :: r =>
+  | ms :: r0 =>
+      let r := strip_via r0 in
       match parse_mode ms, parse_packets (S (List.length r)) r with
       | Some m, Some pkts =>
           join_hist (model_hist m registry [] pkts) ++ " | " ++
